@@ -11,6 +11,9 @@ import (
 )
 
 func relayCfg(id, tier string) relay.Config {
+	if tier == "script" {
+		return relay.Config{Prop: id, Chains: 3, MaxSends: 12}
+	}
 	if strings.HasSuffix(tier, "/tss") {
 		return relayTSSCfg(id, strings.TrimSuffix(tier, "/tss"))
 	}
@@ -86,6 +89,20 @@ func relayTSSCfg(id, tier string) relay.Config {
 	panic("no tss relay config for " + id)
 }
 
+// scripted: besides the search, a fixed three-chain history (every chain ends up with packet state on two paths) is run
+// with all monitors and state invariants, in particular the restart invariant (packet state survives the module's own
+// genesis export and import) which needs several paths per chain to bite.
+func scripted(prop string) func(r *ev.Run, tier string) (int64, int64) {
+	return func(r *ev.Run, tier string) (int64, int64) {
+		steps, vs := relay.ScriptedViolations(prop)
+		for _, v := range vs {
+			r.Violation(v.Sig, v.Detail, map[string]interface{}{"engine": "bfs", "check": prop, "tier": "script", "history": v.History})
+		}
+		r.Count("scripted_three_chain_steps", int64(steps))
+		return int64(steps), int64(steps)
+	}
+}
+
 func registerRelay(id string, rule string, assume []string, minClasses int) {
 	registerBFS(bfsCheck{
 		id: id,
@@ -115,6 +132,7 @@ func registerRelay(id string, rule string, assume []string, minClasses int) {
 		extra: map[string]func(r *ev.Run, tier string) (int64, int64){
 			// BSC- and ETH-secured counterparties: the proof component space of their verifiers (the C08 enumeration) is part of C02 too
 			"C02": func(r *ev.Run, tier string) (int64, int64) { return c08.Run(r, "quick") },
+			"C01": scripted("C01"), "C03": scripted("C03"), "C04": scripted("C04"), "C05": scripted("C05"),
 		}[id],
 		minClasses: minClasses,
 		propFilter: id,
